@@ -328,16 +328,18 @@ func init() {
 	register(func() {
 		engine.Register(&engine.Check{
 			ID: "C19", Level: "model_checking",
-			Rule:        "a cooperative scheduler owns every scheduling point (every function entry and loop iteration of the instrumented library, ~10^2-10^3 per body) of 2 (thorough: also 3) goroutines, each running a fold/encode/parse/unfold pipeline on its OWN instances over SHARED input bytes, SHARED Go values and SHARED Go types (plain struct, inline interface, omitempty+IsZeroer, map[string]interface{}, Folder, nested struct; first use of a type in both threads, and first use in one while cached in the other); every schedule with at most B preemptions is executed (first preemption position = explicit value choice over all points, later ones deviation-bounded): quick B=1, thorough B=2 (2 threads) / B=1 (3 threads), both start orders; oracle: every thread returns exactly the result the same body returns alone, no thread panics, none exceeds its step budget (livelock); plus a SEPARATE free-running pass of the same bodies on 4 goroutines x 30 rounds in a -race build (the race detector's happens-before analysis, not an enumeration); a case = (body pair, start thread, schedule); non-trivial = the schedule contains a preemption that was actually reached",
+			Rule:        "a cooperative scheduler owns every scheduling point (every function entry and loop iteration of the instrumented library, ~10^2-10^3 per body) of 2 (thorough: also 3) goroutines, each running a fold/encode/parse/unfold pipeline on its OWN instances over SHARED input bytes, SHARED Go values and SHARED Go types (plain struct, inline interface, omitempty+IsZeroer, map[string]interface{}, Folder, nested struct; first use of a type in both threads, and first use in one while cached in the other); every schedule with at most B preemptions is executed (first preemption position = explicit value choice over all points, later ones deviation-bounded): quick B=1, thorough B=2 (2 threads, body pairs of at most 700 scheduling points in total; B=1 for longer pairs) / B=1 (3 threads), both start orders; oracle: every thread returns exactly the result the same body returns alone, no thread panics, none exceeds its step budget (livelock); plus a SEPARATE free-running pass of the same bodies on 4 goroutines x 30 rounds in a -race build (the race detector's happens-before analysis, not an enumeration); a case = (body pair, start thread, schedule); non-trivial = the schedule contains a preemption that was actually reached",
 			Assumptions: []string{"sequentially consistent interleaving at function/loop granularity; memory-model effects and conflicts inside one straight-line block are delegated to the race detector pass", "maps in shared values have at most one entry, so the number and identity of scheduling points is schedule-independent"},
 			Families:    c19Families,
 			Bounds: func(tier string) map[string]interface{} {
-				return map[string]interface{}{"threads": tierPick(tier, "2", "2 and 3"), "preemption_bound": tierPick(tier, 1, 2)}
+				return map[string]interface{}{"threads": tierPick(tier, "2", "2 and 3"), "preemption_bound": tierPick(tier, 1, 2), "preemption_bound_2_only_up_to_total_points": c19TwoPreemptionPoints}
 			},
 			Require: []string{"schedules_with_reached_preemption", "race_pass_rounds"},
 		})
 	})
 }
+
+const c19TwoPreemptionPoints = 700
 
 type c19Pair struct{ a, b int }
 
@@ -467,7 +469,9 @@ func c19Schedule(x *engine.Exec, bodies []c19Body, ids []int, start, maxPts int)
 	}
 	s := engine.NewSched(x, f, 0)
 	// executions on never-freed fresh types are explored with one preemption only (memory)
-	s.NoLater = fresh != nil
+	// a second preemption (thorough tier) only for body combinations with at most c19TwoPreemptionPoints scheduling points
+	// in total: the bound-2 space grows with the square of the points (the full product did not finish in 40 minutes)
+	s.NoLater = fresh != nil || total > c19TwoPreemptionPoints
 	got := make([]string, len(ids))
 	var fns []func()
 	for i, id := range ids {
